@@ -17,8 +17,8 @@
 Require Import IP.Base.Bytes IP.Base.GoSem IP.Gen.FromGo IP.Store.Storage.
 Open Scope N_scope.
 
-Definition comp := bytes.
-Definition path := list comp.
+Notation comp := (list N) (only parsing).
+Notation path := (list (list N)) (only parsing).
 
 Inductive node := File (c : bytes) | Dir.
 Definition fs := list (path * node).
